@@ -12,7 +12,7 @@ VERUS_UNITS = {
 # Kani harness groups: `file` is appended (as a child module) to `module` of a scratch copy of /repo.
 KANI_UNITS = {
     'kani': dict(
-        props=['C03', 'C04', 'C07', 'C08', 'C10', 'C11', 'C12', 'C14', 'C17'],
+        props=['C03', 'C04', 'C05', 'C06', 'C07', 'C08', 'C10', 'C11', 'C12', 'C14', 'C17'],
         attach={'src/common/deque.rs': 'kani/deque.rs', 'src/unsync/deques.rs': 'kani/unsync_deques.rs', 'src/unsync/cache.rs': 'kani/unsync_cache.rs',
                 'src/common/builder_utils.rs': 'kani/builder_utils.rs', 'src/common.rs': 'kani/common.rs', 'src/common/frequency_sketch.rs': 'kani/frequency_sketch.rs'},
         flags=['-Z', 'stubbing'], jobs=8,
@@ -27,7 +27,7 @@ KANI_UNITS = {
             dict(name='weigh_calls_the_weigher_once_with_the_pair', tags=['C17', 'C10'], function='weigh', what='weigh(Some(w), k, v) calls the boxed weigher exactly once with (k, v) and returns its result: complete'),
             dict(name='glue_evict_expired', tags=['C10', 'C08', 'C03', 'C04'], function='Cache::evict_expired', what='glue of evict_expired with both loop callees stubbed by recording havoc contracts: counters reduced by exactly what the callees report; scans run iff the policy is configured: complete for the glue'),
             dict(name='ensure_returns_when_within_1000_years', tags=['C17', 'C08'], function='ensure_expirations_or_panic', what='returns normally whenever both durations are <= 1000 years: complete over all Durations'),
-            dict(name='ensure_panics_when_beyond_1000_years', tags=['C17'], function='ensure_expirations_or_panic', should_panic=True, cover_must_be_unsat=True, what='panics on EVERY input with a duration > 1000 years (the cover after the call is unreachable): complete over all Durations'),
+            dict(name='ensure_panics_when_beyond_1000_years', tags=['C17', 'C08', 'C05', 'C06'], function='ensure_expirations_or_panic', should_panic=True, cover_must_be_unsat=True, what='panics on EVERY input with a duration > 1000 years (the cover after the call is unreachable): complete over all Durations'),
             dict(name='sketch_reset_halves_every_counter', tags=['C14'], function='FrequencySketch::reset', bounded='table of 2 words (contents, size and sample size symbolic)', what='an aging step floor-halves every counter of every word', timeout=1500),
             dict(name='sketch_capacity_clamps', tags=['C14', 'C08'], function='sketch_capacity', what='sketch_capacity(c) == clamp(c, 128, u32::MAX) for all u64: complete'),
             dict(name='cache_region_roundtrip', tags=['C08'], function='CacheRegion::from', what='tag <-> region bijection on 0..4: complete'),
